@@ -465,7 +465,7 @@ class CategoryPage(Page):
                 )
                 for subdirectory in directory.subdirectories
             ),
-            key=lambda p: p.title,
+            key=lambda p: (p.title, p.source_directory.name),
         )
 
         if servings is not None:
@@ -500,7 +500,9 @@ class CategoryPage(Page):
                 if native_servings is None:
                     recipe_page.parent = category_page
 
-        category_page.recipes.sort(key=lambda recipe_page: recipe_page.title)
+        category_page.recipes.sort(
+            key=lambda recipe_page: (recipe_page.title, recipe_page.recipe_source.name)
+        )
 
         return category_page
 
